@@ -59,6 +59,15 @@ MUTANTS = [
     ("c14-wrong-discriminator", "C14", P_HOOKS,
      R('        if "targetUri" in object_[0]:', '        if "targetRange" in object_[0] and "uri" in object_[0]:'),
      "sound", "location hook: discriminator no longer separates LocationLink from Location"),
+    ("c14-symbols-first-element", "C14", P_HOOKS,
+     R("""        if any(
+            "deprecated" not in item
+            and ("data" in item or "range" not in item["location"])
+            for item in object_
+        ):""", """        if "deprecated" not in object_[0] and (
+            ("data" in object_[0]) or ("range" not in object_[0]["location"])
+        ):"""),
+     "sound", "the original defect D9: element class decided from the first element only"),
     ("c01-lossy-discriminator", "C01", P_HOOKS,
      RN('        if "id" in object_ or "documentSelector" in object_:', '        if "id" in object_:', 0),
      "dispatch-lossless", "registration options recognised by id only: documentSelector is dropped"),
